@@ -64,7 +64,22 @@ def nesting(depth):
     yield "types", "fn main() -> int { let a: " + "array<" * depth + "int" + ">" * depth + " = []\n return 0 }\nshadow main { assert true }\n"
     yield "tuples", "fn main() -> int { let a: " + "(" * depth + "int" + ", int)" * depth + " = 1\n return 0 }\nshadow main { assert true }\n"
     yield "fields", "fn main() -> int { return p" + ".x" * depth + " }\nshadow main { assert true }\n"
+    yield "unsafe", "fn main() -> int { " + "unsafe { " * depth + "(println 1)" + " }" * depth + " return 0 }\nshadow main { assert true }\n"
+    yield "open_unsafe", "fn main() -> int { " + "unsafe { " * depth
+    yield "while", "fn main() -> int { " + "while false { " * depth + "(println 1)" + " }" * depth + " return 0 }\nshadow main { assert true }\n"
+    yield "for", "fn main() -> int { " + "for i in (range 0 1) { " * depth + "(println 1)" + " }" * depth + " return 0 }\nshadow main { assert true }\n"
+    yield "calls", "fn f(a: int) -> int { return a }\nshadow f { assert true }\nfn main() -> int { return " + "(f " * depth + "1" + ")" * depth + " }\nshadow main { assert true }\n"
+    yield "structlit", "struct S { x: int }\nfn main() -> int { let s: S = " + "S { x: " * depth + "1" + " }" * depth + "\n return 0 }\nshadow main { assert true }\n"
+    yield "ifexpr", "fn main() -> int { let v: int = " + "if true { " * depth + "1" + " } else { 2 }" * depth + "\n return v }\nshadow main { assert true }\n"
+    yield "matchnest", "union U { A { v: int } }\nfn main() -> int { let u: U = U.A { v: 1 }\n" + "match u { A(q) => { " * depth + "(println 1)" + " } }" * depth + "\n return 0 }\nshadow main { assert true }\n"
+    if depth <= 5000:      # source size grows linearly, the definitions are cheap but not free
+        yield "nested_fn", "".join("fn f%d(a: int) -> int {\n" % i for i in range(depth)) + "return a\n" + "}\n" * depth + "fn main() -> int { return 0 }\nshadow main { assert true }\n"
+        yield "open_nested_fn", "".join("fn f%d(a: int) -> int {\n" % i for i in range(depth))
+        yield "shadow_nest", "fn main() -> int { return 0 }\n" + "shadow main { " * depth + "assert true" + " }" * depth + "\n"
 
+
+# a sanitizer report must not look like an ordinary rejection (exit 1 + text on stderr): give it its own exit status
+SAN_ENV = {"ASAN_OPTIONS": "detect_leaks=0:exitcode=86", "UBSAN_OPTIONS": "print_stacktrace=1:exitcode=86"}
 
 IDENT_MAIN = "fn main() -> int {\n    return 0\n}\nshadow main { assert true }\n"
 IDENT_TEMPLATES = {
@@ -150,7 +165,7 @@ def gen_cases(tier):
     for tname, tmpl in IDENT_TEMPLATES.items():
         for nm in reserved_names():
             yield "ident:%s:%s" % (tname, nm), (tmpl.replace("@", nm) + IDENT_MAIN).encode()
-    for depth in (10, 100, 999, 1000, 1001, 2000, 50000):
+    for depth in (10, 31, 32, 33, 34, 100, 200, 500, 999, 1000, 1001, 2000, 50000, 200000):
         for fam, text in nesting(depth):
             yield "nest:%s:%d" % (fam, depth), text.encode()
     if tier == "thorough":
@@ -169,13 +184,13 @@ def gen_cases(tier):
 
 def _repo_file(args):
     exe, root, rf, out = args[:4]
-    rc, o, e = common.run([exe, rf, "--emit-nvm", "-o", out], timeout=args[4] if len(args) > 4 else 60, cwd=root)
+    rc, o, e = common.run([exe, rf, "--emit-nvm", "-o", out], timeout=args[4] if len(args) > 4 else 60, cwd=root, envx=SAN_ENV)
     return rf, rc, e
 
 
 def _chunk(args):
     probe, recfile, n, tmo = args
-    rc, out, err = common.run([probe, recfile, "0", str(n), str(tmo)], timeout=7200)
+    rc, out, err = common.run([probe, recfile, "0", str(n), str(tmo)], timeout=7200, envx=SAN_ENV)
     return (args, rc, out.decode(errors="replace"), err.decode(errors="replace")[-2000:])
 
 
@@ -184,7 +199,7 @@ def signature(probe, recfile, idx):
     sigs = []
     rep = ""
     for _ in range(2):
-        rc, out, err = common.run([probe, recfile, str(idx), str(idx + 1), "20"], timeout=120)
+        rc, out, err = common.run([probe, recfile, str(idx), str(idx + 1), "20"], timeout=120, envx=SAN_ENV)
         out = out.decode(errors="replace")
         m = re.search(r"BAD idx=\d+ class=(\S+)", out)
         sigs.append(m.group(1) if m else None)
@@ -238,12 +253,26 @@ def run(tier):
             rep.count("plain_build_runs", int(kv["cases"]))
         for l in out.splitlines():
             if l.startswith("BAD"):
-                m = re.match(r"BAD idx=(\d+) class=(\S+)", l)
-                bads.append((args[1], int(m.group(1)), ("plain:" if is_plain else "") + m.group(2)))
+                m = re.match(r"BAD idx=(\d+) class=(\S+)\s*(.*)", l)
+                cls = ("plain:" if is_plain else "") + m.group(2)
+                if m.group(3):        # sanitizer summary: the class is the finding, e.g. heap-use-after-free src/parser.c:2178 in parse_primary
+                    sm = re.search(r"(?:AddressSanitizer|UndefinedBehaviorSanitizer): (\S+) (?:\S*/)?(src/\S+?:\d+)(?::\d+)? in (\w+)", m.group(3))
+                    cls += ":" + (" ".join(sm.groups()) if sm else re.sub(r"0x[0-9a-f]+|\d{3,}", "N", m.group(3))[:90])
+                bads.append((args[1], int(m.group(1)), cls))
         if rep.out_of_time():
             break
     findings = common.load_findings("C09")
     groups = {}
+    # AddressSanitizer frames are several times larger than normal ones: a stack overflow that only the
+    # instrumented build shows, below the documented nesting limits, says nothing about the real tools.
+    plain_bad = set((r, i) for r, i, c in bads if c.startswith("plain:"))
+    kept = []
+    for recfile, idx, cls in bads:
+        if "stack-overflow" in cls and not cls.startswith("plain:") and (recfile, idx) not in plain_bad:
+            rep.count("asan_only_stack_overflows_not_judged")
+            continue
+        kept.append((recfile, idx, cls))
+    bads = kept
     for recfile, idx, cls in bads:
         label = labels[base_of[recfile] + idx]
         if "timeout" in cls and len([g for g in groups if g[0].startswith("timeout")]) < 60:
@@ -253,6 +282,8 @@ def run(tier):
                 rep.count("slow_but_terminating")
                 continue
         fam = label.split(":")[0]
+        if "exit86:" in cls:
+            fam = "*"
         groups.setdefault((cls, fam), []).append((recfile, idx, label))
     for (cls, fam), items in sorted(groups.items()):
         recfile, idx, label = items[0]
@@ -286,13 +317,39 @@ def run(tier):
             if k % 97 == 0:
                 p = os.path.join(tdir, "t.nano")
                 open(p, "wb").write(data[pos + 4:pos + 4 + ln])
-                rc, o, e = common.run([tree.exe("nano_virt"), p, "--emit-nvm", "-o", os.path.join(tdir, "t.nvm")], timeout=30, cwd=tdir)
+                rc, o, e = common.run([tree.exe("nano_virt"), p, "--emit-nvm", "-o", os.path.join(tdir, "t.nvm")], timeout=30, cwd=tdir, envx=SAN_ENV)
                 tool += 1
                 if rc not in (0, 1) or (rc == 1 and not e):
                     lab = labels[f[2] + k]
                     if not any(lab.split(":")[0] == g[1] for g in groups):
                         rep.violation("c09:tool:" + lab, {"input.nano": data[pos + 4:pos + 4 + ln]}, "nano_virt --emit-nvm on %s: exit %s, stderr %d bytes" % (lab, rc, len(e)))
             pos += 4 + ln
+    # every nesting-family input also through the real tool of both builds (the tool goes on to code generation,
+    # where deep nesting can still overflow the stack after the front end proper has accepted the program)
+    ndir = os.path.join(work, "nest")
+    os.makedirs(ndir, exist_ok=True)
+    njobs = []
+    for depth in (10, 31, 32, 33, 34, 100, 200, 500, 999, 1000, 1001, 2000, 50000):
+        for fam, text in nesting(depth):
+            pth = os.path.join(ndir, "%s_%d.nano" % (fam, depth))
+            with open(pth, "w") as f:
+                f.write(text)
+            njobs.append((tree.exe("nano_virt"), ndir, pth, os.path.join(ndir, "o%d.nvm" % (len(njobs) % 32))))
+            njobs.append((plain.exe("nano_virt"), ndir, pth, os.path.join(ndir, "p%d.nvm" % (len(njobs) % 32))))
+    nres = common.pmap(_repo_file, njobs, chunksize=4)
+    plain_ok = set(rf for k, (rf, rc, e) in enumerate(nres) if k % 2 == 1 and (rc == 0 or (rc == 1 and e) or rc == "timeout"))
+    for k, (rf, rc, e) in enumerate(nres):
+        tool += 1
+        if rc not in (0, 1) or (rc == 1 and not e):
+            if rc == "timeout":
+                continue          # long inputs are timed by the probe pass (3 s, re-run at 20 s), not here
+            if k % 2 == 0 and b"stack-overflow" in e and rf in plain_ok:
+                rep.count("asan_only_stack_overflows_not_judged")
+                continue
+            lab = os.path.basename(rf)[:-5]
+            rep.violation("c09:nesttool:%s:%s" % (re.sub(r"_\d+$", "", lab), rc), {"which.txt": lab + "\n", "stderr.txt": e[-4000:]},
+                          "nano_virt --emit-nvm on nesting family %s: exit %s (must be 0, or 1 with a diagnostic)" % (lab, rc),
+                          "# regenerate with vf/checks/c09.py nesting(depth); bin/nano_virt <file> --emit-nvm -o /tmp/x.nvm")
     # import families need real files: self import, circular import, missing / directory / broken module
     idir = os.path.join(work, "imports")
     os.makedirs(os.path.join(idir, "adir.nano"), exist_ok=True)
@@ -300,14 +357,23 @@ def run(tier):
     imp = {"self.nano": 'import "self.nano" as S\n' + M, "ca.nano": 'import "cb.nano" as B\n' + M, "cb.nano": 'import "ca.nano" as A\npub fn f() -> int { return 1 }\nshadow f { assert true }\n',
            "miss.nano": 'import "nonexistent.nano" as N\n' + M, "dirimp.nano": 'import "adir.nano" as D\n' + M,
            "broken_user.nano": 'import "broken.nano" as K\n' + M, "broken.nano": 'pub fn f( -> int { return }\n',
-           "fromself.nano": 'from "fromself.nano" import main\n' + M, "deep0.nano": 'import "deep1.nano" as D\n' + M}
+           "fromself.nano": 'from "fromself.nano" import main\n' + M, "deep0.nano": 'import "deep1.nano" as D\n' + M,
+           "fa.nano": 'from "fb.nano" import g\n' + M, "fb.nano": 'from "fa.nano" import main\npub fn g() -> int { return 1 }\nshadow g { assert true }\n',
+           "t1.nano": 'import "t2.nano" as T\n' + M, "t2.nano": 'import "t3.nano" as T\npub fn g2() -> int { return 1 }\nshadow g2 { assert true }\n',
+           "t3.nano": 'import "t1.nano" as T\npub fn g3() -> int { return 1 }\nshadow g3 { assert true }\n',
+           "dia.nano": 'import "dib.nano" as B\nimport "dic.nano" as C\n' + M, "dib.nano": 'import "did.nano" as D\npub fn gb() -> int { return 1 }\nshadow gb { assert true }\n',
+           "dic.nano": 'import "did.nano" as D\npub fn gc() -> int { return 1 }\nshadow gc { assert true }\n', "did.nano": 'pub fn gd() -> int { return 1 }\nshadow gd { assert true }\n',
+           "twice.nano": 'import "did.nano" as D\nimport "did.nano" as E\n' + M,
+           "long0.nano": 'import "long1.nano" as D\n' + M}
+    for k in range(1, 80):
+        imp["long%d.nano" % k] = ('import "long%d.nano" as D\n' % (k + 1) if k < 79 else "") + 'pub fn h%d() -> int { return %d }\nshadow h%d { assert true }\n' % (k, k, k)
     for k in range(1, 40):
         imp["deep%d.nano" % k] = ('import "deep%d.nano" as D\n' % (k + 1) if k < 39 else "") + 'pub fn g%d() -> int { return %d }\nshadow g%d { assert true }\n' % (k, k, k)
     for n, t in imp.items():
         open(os.path.join(idir, n), "w").write(t)
-    for n in ("self.nano", "ca.nano", "miss.nano", "dirimp.nano", "broken_user.nano", "fromself.nano", "deep0.nano"):
+    for n in ("self.nano", "ca.nano", "miss.nano", "dirimp.nano", "broken_user.nano", "fromself.nano", "deep0.nano", "fa.nano", "t1.nano", "dia.nano", "twice.nano", "long0.nano"):
         for tool_args in (["--emit-nvm", "-o", os.path.join(idir, "o.nvm")],):
-            rc, o, e = common.run([tree.exe("nano_virt"), os.path.join(idir, n)] + tool_args, timeout=30, cwd=idir)
+            rc, o, e = common.run([tree.exe("nano_virt"), os.path.join(idir, n)] + tool_args, timeout=30, cwd=idir, envx=SAN_ENV)
             tool += 1
             total += 1
             labels.append("import:" + n)
